@@ -204,3 +204,41 @@ def all_cells(root):
         out.append(c)
         stack.extend(c.refs)
     return out
+
+
+_MAGIC = {}
+
+
+def magic_constants(root=None, limit=2500):
+    """byte strings of 2..8 bytes that occur as literals in the library's own source (bytes literals, 8-hex-digit strings, integers of 17..64 bits in both byte
+    orders): tags, magic prefixes, table entries.  A value class for inputs - code that special-cases one of its own constants is wrong exactly there."""
+    import ast
+    import os
+    from lib import mon
+    root = root or os.path.join(mon.REPO, 'pytoniq_core')
+    if root in _MAGIC:
+        return _MAGIC[root]
+    out = {}
+    for dp, _, fs in sorted(os.walk(root)):
+        for f in sorted(fs):
+            if not f.endswith('.py') or f == 'keys.py':
+                continue
+            try:
+                tree = ast.parse(open(os.path.join(dp, f), encoding='utf-8').read())
+            except (SyntaxError, OSError, UnicodeDecodeError):
+                continue
+            for node in ast.walk(tree):
+                if not isinstance(node, ast.Constant):
+                    continue
+                v = node.value
+                if isinstance(v, bytes) and 2 <= len(v) <= 8:
+                    out.setdefault(v, f)
+                elif isinstance(v, str) and len(v) in (8, 16) and all(c in '0123456789abcdefABCDEF' for c in v):
+                    out.setdefault(bytes.fromhex(v), f)
+                elif isinstance(v, int) and not isinstance(v, bool) and (1 << 16) <= v < (1 << 64):
+                    n = 4 if v < (1 << 32) else 8
+                    out.setdefault(v.to_bytes(n, 'big'), f)
+                    out.setdefault(v.to_bytes(n, 'little'), f)
+    res = sorted(out)[:limit]
+    _MAGIC[root] = res
+    return res
